@@ -20,7 +20,7 @@ ASSUMED = [
     {"what": "the element being written is any type with `write(&self, opt) -> Option<String>` = the uninterpreted written(); WriteOpt::clone is the identity; WriteOpt::default() is opaque",
      "keys": ["trait WriteSource", "spec fn written", "fn write", "fn clone_opt", "fn default_opt"]},
     {"what": "str: len is the byte length, rfind('\\n') is the last newline's byte index (below the length) if there is one; AsRef<str>::as_ref is the text itself",
-     "keys": ["fn str_len", "fn rfind_newline", "spec fn last_newline", "trait Text", "fn as_text"]},
+     "keys": ["fn str_len", "fn chars_count", "spec fn byte_len", "fn rfind_newline", "spec fn last_newline", "trait Text", "fn as_text"]},
 ]
 TRUSTED = [
     "oracle (C12): formatting never panics - in particular the width that write_or_expand widens (x 1.5 per retry, u16) does not overflow: one unbreakable item of ~49k characters "
@@ -40,10 +40,13 @@ pub trait WriteSource {
 }
 #[verifier::external_body] pub fn clone_opt(o: &WriteOpt) -> (r: WriteOpt) ensures r == *o, { unimplemented!() }
 #[verifier::external_body] pub fn default_opt() -> WriteOpt { unimplemented!() }
-#[verifier::external_body] pub fn str_len(s: &str) -> (r: usize) ensures r == s@.len(), { unimplemented!() }
+// str::len and the index str::rfind returns count BYTES, chars().count() counts characters: a text has at least as many bytes as characters
+pub uninterp spec fn byte_len(s: Seq<char>) -> nat;
+#[verifier::external_body] pub fn str_len(s: &str) -> (r: usize) ensures r == byte_len(s@), r >= s@.len(), { unimplemented!() }
+#[verifier::external_body] pub fn chars_count(s: &str) -> (r: usize) ensures r == s@.len(), r <= byte_len(s@), { unimplemented!() }
 pub uninterp spec fn last_newline(s: Seq<char>) -> Option<usize>;
 #[verifier::external_body]
-pub fn rfind_newline(s: &str) -> (r: Option<usize>) ensures r == last_newline(s@), r is Some ==> r->0 < s@.len(), { unimplemented!() }
+pub fn rfind_newline(s: &str) -> (r: Option<usize>) ensures r == last_newline(s@), r is Some ==> r->0 < byte_len(s@), { unimplemented!() }
 pub trait Text { spec fn text(&self) -> Seq<char>; fn as_text(&self) -> (r: &str) ensures r@ == self.text(); }
 // same options, another width (the line restarted)
 pub open spec fn with_width(o: WriteOpt, max_width: u16, rem_width: u16) -> WriteOpt { WriteOpt { max_width, rem_width, ..o } }
@@ -60,7 +63,7 @@ def build(X):
     we.rewrite_re("R5", r"\bopt\.clone\(\)", "clone_opt(&opt)", count=None, why="derive(Clone): identity")
     we.insert_at_body_start("let mut opt = opt0;", "rebinding of the `mut` parameter")
     we.contract("""
-        requires opt0.tab@.len() * opt0.indent <= u16::MAX, opt0.tab@.len() <= u16::MAX,
+        requires byte_len(opt0.tab@) * opt0.indent <= u16::MAX, byte_len(opt0.tab@) <= u16::MAX,
         ensures
             // C14: the text is what `write` gave for the caller's options with SOME width - nothing else about the options changes
             exists|mw: u16, rw: u16| self_.written(with_width(opt0, mw, rw)) == Some(r), // @WE1
@@ -69,7 +72,7 @@ def build(X):
     we.loop_contract(1, """
         invariant
             opt == with_width(opt0, opt.max_width, opt.rem_width), // @WE2
-            opt.tab == opt0.tab, opt.indent == opt0.indent, opt0.tab@.len() * opt0.indent <= u16::MAX, opt0.tab@.len() <= u16::MAX,
+            opt.tab == opt0.tab, opt.indent == opt0.indent, byte_len(opt0.tab@) * opt0.indent <= u16::MAX, byte_len(opt0.tab@) <= u16::MAX,
     """)
     text = we.text
     # Verus: a `loop` without a decreases clause needs the attribute (termination is not claimed)
@@ -79,7 +82,7 @@ def build(X):
         ("new_width", "        ensures r.max_width == max_width && r.rem_width == max_width, // @NW1\n"),
         ("consume_width", "        ensures\n            r is Some <==> old(self).rem_width >= width, // @CW1\n            r is Some ==> *final(self) == (WriteOpt { rem_width: (old(self).rem_width - width) as u16, ..*old(self) }), // @CW2\n"
                           "            r is None ==> *final(self) == *old(self),\n"),
-        ("reset_line", "        requires old(self).tab@.len() * old(self).indent <= u16::MAX, old(self).tab@.len() <= u16::MAX,\n        ensures *final(self) == (WriteOpt { rem_width: final(self).rem_width, ..*old(self) }), // @RL1\n"),
+        ("reset_line", "        requires byte_len(old(self).tab@) * old(self).indent <= u16::MAX, byte_len(old(self).tab@) <= u16::MAX,\n        ensures *final(self) == (WriteOpt { rem_width: final(self).rem_width, ..*old(self) }), // @RL1\n"),
     ):
         f = X.fn(CG_MOD, name, after="impl WriteOpt").pub_all()
         f.rewrite_re("R5", r"\.\.WriteOpt::default\(\)", "..default_opt()", count=None, why="Default::default")
@@ -89,8 +92,13 @@ def build(X):
         fns.append(f.text)
     c = X.fn(CG_MOD, "consume", after="impl WriteOpt").pub_all()
     c.rewrite("R6", "fn consume<S: AsRef<str>>(&mut self, source: S) -> Option<S>", "fn consume<S: Text>(&mut self, source: S) -> (r: Option<S>)", why="AsRef<str> is the trait Text (as_ref -> as_text)")
-    c.rewrite_re("R5", r"source\.as_ref\(\)\.rfind\('\\n'\)", "rfind_newline(source.as_text())", count=None, why="str::rfind of a newline")
-    c.rewrite_re("R5", r"source\.as_ref\(\)\.len\(\)", "str_len(source.as_text())", count=None, why="str::len")
+    c.rewrite_re("R5", r"\bsource\.as_ref\(\)", "source.as_text()", count=None, why="AsRef<str>::as_ref")
+    recv = r"\b(\w+(?:\.as_text\(\))?)"
+    c.rewrite_re("R5", recv + r"\.rfind\('\\n'\)", r"rfind_newline(\1)", count=None, why="str::rfind of a newline (a byte index)")
+    if re.search(recv + r"\.chars\(\)\.count\(\)", c.text):
+        c.rewrite_re("R5", recv + r"\.chars\(\)\.count\(\)", r"chars_count(\1)", count=None, why="chars().count(): the number of characters")
+    if re.search(recv + r"\.len\(\)", c.text):
+        c.rewrite_re("R5", recv + r"\.len\(\)", r"str_len(\1)", count=None, why="str::len (bytes)")
     c.contract("""
         ensures
             // C14: the text comes back unchanged; only the remaining width of the options changes
